@@ -51,6 +51,8 @@ func (r *RateLimitedTokenRequest) Marshal() []byte {
 }
 
 func (r *RateLimitedTokenRequest) Unmarshal(data []byte) bool {
+	// Forget the cached encoding of any value held before
+	r.raw = nil
 	s := cryptobyte.String(data)
 
 	var tokenType uint16
